@@ -29,7 +29,7 @@ def run(chk, facts, tier):
              'event_counter_ and time_since_last_event_ with the same event count; the channel index is reduced modulo max_number_of_data_channels', floor=4)
     chk.rule('listen-table', 'latency is cancelled exactly for: each peripheral_latency_feature<F>() paired with its own event flag, listen_always, or error_occured', floor=1)
     chk.rule('latency-bounded', 'in plan_next_connection_event the skip count is only reset to 0, incremented once after the decision and min-clamped by the positive distance to a pending instant', floor=1)
-    chk.rule('reschedule-once', 'reschedule_on_pending_data_impl moves the event by (min(times, last_latency_) - last_latency_) only when last_latency_ != 1 and the radio disarmed the event, then sets last_latency_ = 1', floor=1)
+    chk.rule('reschedule-once', 'reschedule_on_pending_data_impl moves the event by (min(times, last_latency_) - last_latency_) only when last_latency_ != 1 and the radio disarmed the event, then sets last_latency_ = 1; reset_connection_state records latency 1; last_latency_ has no other writer', floor=3)
     expected = {'plan_next_connection_event_after_timeout': set(), 'plan_next_connection_event': {'connection_peripheral_latency'},
                 'reset_connection_state': set(), 'peripheral_latency_move_connection_event': {'count'}}
     for name, exp in expected.items():
@@ -115,6 +115,15 @@ def run(chk, facts, tier):
         okr = len(rec) == 1 and is_name(rec[0].args()[0], lat) and all(precedes(fn, st, rec[0]) or not fn.paths_avoiding([fn.block_of(rec[0])], fn.block_of(st), set()) for op, val, st in sts)
         chk.instance('latency-bounded', fn, 'applied latency recorded after its last adjustment', okr, '' if okr else 'the latency remembered for pulling an event back differs from the latency applied (recorded before the instant clamp)', key='recorded')
         chk.instance('latency-bounded', fn, 'stores to %s: %s' % (lat, kinds), ok, '' if ok else 'the number of skipped events can exceed the connection\'s peripheral latency or skip a pending instant', key='bounded')
+    # a new connection starts with nothing to pull back
+    for fn in variants(facts, CS + 'reset_connection_state', chk):
+        rec = fn.body.calls('disarmable_connection_state_last_latency')
+        ok = len(rec) == 1 and cval(rec[0].args()[0]) == 1 and not fn.guards(rec[0])
+        chk.instance('reschedule-once', fn, 'reset_connection_state: recorded latency back to 1 (the first event of a connection can not be pulled back)', ok,
+                     '' if ok else 'the latency recorded for the last planned event survives into the next connection: data pending before its first event moves that event back by the old latency (event counter below 0, wrong channel)', key='reset')
+    for fn, tgt, op, val, st in field_stores(facts, 'last_latency_', 'bluetoe::link_layer::details::disarmable_connection_state::'):
+        ok = op == 'init' or (fn.name == 'disarmable_connection_state_last_latency' and op == '=' and is_name(val, fn.params[0]['n'])) or (fn.name == 'reschedule_on_pending_data_impl' and op == '=' and cval(val) == 1)
+        chk.instance('reschedule-once', fn, 'last_latency_ %s %s in %s' % (op, val.text() if val is not None else '', fn.name), ok, '' if ok else 'the recorded latency is written outside its setter (called by every planner) and the one-shot reset after a move', node=st, key='last_latency_ in ' + fn.name)
     for fn in facts.functions:
         if fn.name == 'reschedule_on_pending_data_impl' and fn.body.calls('peripheral_latency_move_connection_event'):
             mv = fn.body.calls('peripheral_latency_move_connection_event')[0]
